@@ -48,15 +48,56 @@ def init_attrs(info, analysis=None) -> Dict[str, str]:
     return out
 
 
-def decode_paths(analysis: Analysis, keys):
-    """Abstract paths of the JSON object hook applied to a dict with exactly `keys` (symbolic values)."""
-    from ..values import DictV, Sym
+def getstate_live_mutations(analysis: Analysis) -> List[str]:
+    """Mutations Sensor.__getstate__ performs on anything but its own copy of the instance dict."""
+    from ..values import Sym
+
+    ctx = analysis.context(analysis.versions[-1], "serial", "sync")
+    it = analysis.new_interp(ctx)
+    out: List[str] = []
+    for kind, s, v in analysis.run_root(it, "sensor:Sensor.__getstate__", [], Sym(("root", "S"), ("cls", "sensor:Sensor")), it.new_state()):
+        if kind != "val":
+            continue
+        ck = v.key() if hasattr(v, "key") else None
+        for e in s.events:
+            if e.kind in ("clear", "dictpop", "seqpop", "delitem", "append", "appendleft", "extend", "update", "setitem", "store") and hasattr(e.recv, "key") and e.recv.key() != ck:
+                out.append(f"{e.kind} on {repr(e.recv.key())[:70]}")
+    return sorted(set(out))
+
+
+def decoder_side_effects(analysis: Analysis, enc_s) -> List[str]:
+    """Mutations of long-lived state by the JSON object hook while it builds a Sensor."""
+    from ..values import V
+
+    d, outs = decode_paths(analysis, sorted(enc_s))
+    out: List[str] = []
+    for kind, s, v in outs:
+        for e in s.events:
+            if e.kind in ("setitem", "update", "append", "dictpop", "delitem", "clear", "store", "extend") and isinstance(e.recv, V):
+                k = e.recv.key()
+                if k[0] in ("obj", "dictv", "list", "listu") or (k[0] == "u" and str(k[1]).startswith(("dc@", "d@", "copy:"))):
+                    continue
+                out.append(f"{e.kind} {e.name} on {repr(k)[:70]}")
+    return sorted(set(out))
+
+
+def decode_paths(analysis: Analysis, keys, with_child: bool = False):
+    """Abstract paths of the JSON object hook applied to a dict with exactly `keys` (symbolic values).
+    with_child: the `children` entry is a map holding one already decoded ChildSensor (json decodes inner
+    objects first), so that what the Sensor branch does to its children is visible."""
+    from ..values import DictV, Obj, Sym
 
     ctx = analysis.context(analysis.versions[-1], "serial", "sync")
     it = analysis.new_interp(ctx)
     st = it.new_state()
     dec = Sym(("root", "DEC"), ("cls", "persistence:MySensorsJSONDecoder"))
-    d = DictV({k: Sym(("root", "v_" + k), None) for k in keys}, closed=True, label="in")
+    entries = {k: Sym(("root", "v_" + k), None) for k in keys}
+    if with_child and "children" in entries:
+        child = Obj("ChildSensor#decoded", "sensor:ChildSensor")
+        for a in ("id", "type", "description", "values"):
+            st.mem[(child.key(), "a", a)] = Sym(("root", "c_" + a), ("dict", "int", "str") if a == "values" else None)
+        entries["children"] = DictV({7: child}, closed=True, label="children-in")
+    d = DictV(entries, closed=True, label="in")
     return d, analysis.run_root(it, "persistence:MySensorsJSONDecoder.dict_to_object", [d], dec, st)
 
 
@@ -69,11 +110,24 @@ def decoder_rules(analysis: Analysis, res: RuleResult, enc_s, enc_c, wd) -> None
     def final_attr(s, obj, name):
         return s.mem.get((obj.key(), "a", name))
 
+    def side_effects(s) -> List[str]:
+        """Mutations of anything the hook did not create itself (the decoder object, the gateway's maps ...)."""
+        out = []
+        for e in s.events:
+            if e.kind in ("setitem", "update", "append", "dictpop", "delitem", "clear", "store", "extend") and isinstance(e.recv, V):
+                k = e.recv.key()
+                if k[0] in ("obj", "dictv", "list", "listu") or (k[0] == "u" and str(k[1]).startswith(("dc@", "d@", "copy:"))):
+                    continue
+                out.append(f"{e.kind} {e.name} on {repr(k)[:70]}")
+        return out
+
+    effects_seen: List[str] = []
     # Sensor dict -> Sensor
     d, outs = decode_paths(analysis, sorted(enc_s))
     bad = []
     for out in outs:
         kind, s, v = out
+        effects_seen.extend(side_effects(s))
         if kind != "val":
             bad.append((f"raises {v.cls.__name__}: {v.what}", out))
             continue
@@ -91,6 +145,18 @@ def decoder_rules(analysis: Analysis, res: RuleResult, enc_s, enc_c, wd) -> None
             elif direct is not None and k not in ("battery_level", "heartbeat", "protocol_version") and direct.key() != ("root", "v_" + k):
                 bad.append((f"attribute {k} ends up as {direct.key()!r}, not the encoded value", out))
     res.add("C11-R2", "persistence:MySensorsJSONDecoder / a dict with the Sensor encoder's keys becomes a Sensor with every key restored", not bad and bool(outs), wd, f"{len(outs)} path(s): Sensor(v['sensor_id']) then every encoded key stored through its attribute / property" if not bad else bad[0][0], describe_path(bad[0][1], 18) if bad else None)
+    res.add("C11-R2", "persistence:MySensorsJSONDecoder / the object hook has no effect beyond the objects it builds (nothing is inserted into the gateway while the document is still being parsed)", not effects_seen, wd, "pure construction" if not effects_seen else f"the hook mutates long-lived state ({sorted(set(effects_seen))[0]}): json runs it on every completed inner object, so a document that fails later has already changed the network (partial merge)")
+    # children decoded earlier are handed on untouched by the Sensor branch
+    d, outs = decode_paths(analysis, sorted(enc_s), with_child=True)
+    touched = []
+    for out in outs:
+        kind, s, v = out
+        ck = ("obj", "ChildSensor#decoded")
+        for a in ("id", "type", "description", "values"):
+            cur = s.mem.get((ck, "a", a))
+            if cur is None or cur.key() != ("root", "c_" + a):
+                touched.append((f"child.{a} ends up as {cur.key() if cur is not None else None!r}", out))
+    res.add("C11-R2", "persistence:MySensorsJSONDecoder / the Sensor branch hands its (already decoded) children on unchanged", bool(outs) and not touched, wd, f"{len(outs)} path(s): id, type, description and values of a decoded child are left as decoded" if not touched else f"{touched[0][0]}: the JSON loader rewrites what it decoded (values the live gateway accepted are dropped on JSON load only)", describe_path(touched[0][1], 18) if touched else None)
     # ChildSensor dict -> ChildSensor (with and without the optional description)
     for keys, label in ((sorted(enc_c), "the ChildSensor encoder's keys"), (sorted(enc_c - {"description"}), "the ChildSensor keys minus the optional description")):
         d, outs = decode_paths(analysis, keys)
@@ -193,6 +259,7 @@ def run(analysis: Analysis, tier: str) -> RuleResult:
     # by paths: which keys of the instance dict copy are popped and under which name the value is stored back
     renamed: Set[str] = set()
     gs_problems = []
+    live_mut: List[str] = []
     from ..values import Const as _Const, Sym as _Sym
 
     ctx0 = analysis.context(analysis.versions[-1], "serial", "sync")
@@ -204,6 +271,10 @@ def run(analysis: Analysis, tier: str) -> RuleResult:
             gs_problems.append(f"__getstate__ can raise {v0.cls.__name__}")
             continue
         pops = [e.args[0].value for e in s0.events if e.kind == "dictpop" and e.args and isinstance(e.args[0], _Const)]
+        copy_key = v0.key() if hasattr(v0, "key") else None
+        for e in s0.events:
+            if e.kind in ("clear", "dictpop", "seqpop", "delitem", "append", "appendleft", "extend", "update", "setitem", "store") and hasattr(e.recv, "key") and e.recv.key() != copy_key:
+                live_mut.append(f"{e.kind} on {repr(e.recv.key())[:70]}")
         for e in s0.events:
             if e.kind in ("dictpop", "delitem") and e.args and not isinstance(e.args[0], _Const):
                 gs_problems.append("a computed key is removed from the pickled state")
@@ -217,6 +288,7 @@ def run(analysis: Analysis, tier: str) -> RuleResult:
     if full is not None and renamed != full:
         gs_problems.append(f"attributes {sorted(renamed - full)} are renamed on some paths only")
     res.add("C11-R1", "sensor:Sensor.__getstate__ / each renamed value is stored under the property name of the private attribute it was popped from", not gs_problems, common.where(analysis, getstate, getstate.node), "state[name] = state.pop('_' + name)" if not gs_problems else "; ".join(sorted(set(gs_problems))[:3]))
+    res.add("C11-R1", "sensor:Sensor.__getstate__ / saving does not change the live object (only the copied dict is edited)", not live_mut, common.where(analysis, getstate, getstate.node), "mutations only on the copy of the instance dict" if not live_mut else f"__getstate__ mutates an object the copy shares with the live sensor ({sorted(set(live_mut))[0]}): the copy is shallow, so every pickle save empties the node's sleep state / hold queue", None)
     setters = {"_" + name for name, pr in sensor.props.items() if "set" in pr}
     res.add("C11-R1", "sensor:Sensor.__getstate__ / renames exactly the private attributes behind a property with setter", renamed == setters, common.where(analysis, getstate, getstate.node), f"renamed {sorted(renamed)}; settable properties {sorted(setters)}")
     private = {a for a in s_init if a.startswith("_")}
@@ -268,10 +340,11 @@ def run(analysis: Analysis, tier: str) -> RuleResult:
     # drags the message, the gateway and the const module into the pickle (shared with C07-R2)
     from . import c07
 
-    for summ in common.pmap(analysis, c07.router_worker, [(analysis.versions[-1], "serial", "sync")]):
-        held = [r for r in summ["rows"] if r["what"] == "holds the message"]
-        okq = bool(held) and all(r["ok"] for r in held)
-        res.add("C11-R4", "__init__:Gateway._route_message / what is put into the node's hold queue is the encoded line (a str): the pickle of a node with withheld replies stays writable", okq, "mysensors/__init__.py", "queue.append(msg.encode())" if okq else (held[0]["why"] if held else "no holding path"), next((r["witness"] for r in held if not r["ok"]), None))
+    c07.hold_queue_plain(analysis, res, "C11-R4")
+    # a load restores the saved state only if nothing saves before it has completed (shared with C13-R4)
+    from .c13 import start_rule
+
+    start_rule(analysis, res, "C11-R5")
     res.need("C11-R5", 2, "save-path obligations")
     res.need("C11-R1", 5, "field agreement obligations")
     res.units = {"classes": ["sensor:Sensor", "sensor:ChildSensor", "persistence:MySensorsJSONEncoder", "persistence:MySensorsJSONDecoder"], "source_digest": analysis.p.digest()}
